@@ -130,20 +130,22 @@ type step struct {
 func (p *pipeline) stepDesc(i int, s step) string {
 	q := func(id uint8) string { return fmt.Sprintf("%q", p.nameOf(int(id))) }
 	pre := "db.Callback()." + p.name + "()"
+	switch {
+	case s.Bef != none && s.Aft != none && afterFirst(i, s):
+		pre += ".After(" + q(s.Aft) + ").Before(" + q(s.Bef) + ")"
+	default:
+		if s.Bef != none {
+			pre += ".Before(" + q(s.Bef) + ")"
+		}
+		if s.Aft != none {
+			pre += ".After(" + q(s.Aft) + ")"
+		}
+	}
 	switch s.Op {
 	case opReplace:
 		return fmt.Sprintf("%s.Replace(%s, stub%d)", pre, q(s.Name), i)
 	case opRemove:
 		return fmt.Sprintf("%s.Remove(%s)", pre, q(s.Name))
-	}
-	if s.Bef != none && s.Aft != none && afterFirst(i, s) {
-		return fmt.Sprintf("%s.After(%s).Before(%s).Register(%s, stub%d)", pre, q(s.Aft), q(s.Bef), q(s.Name), i)
-	}
-	if s.Bef != none {
-		pre += ".Before(" + q(s.Bef) + ")"
-	}
-	if s.Aft != none {
-		pre += ".After(" + q(s.Aft) + ")"
 	}
 	return fmt.Sprintf("%s.Register(%s, stub%d)", pre, q(s.Name), i)
 }
@@ -178,11 +180,14 @@ type enumState struct {
 //	                the name itself) + the next name that will be introduced (forward
 //	                reference; stays unknown when no later call introduces it) + "*"
 //	Replace/Remove: built-ins of the alphabet + user names introduced so far + unknown "nx"
+var enumDup = true
+var enumDupSingle = false
+
 func opsAt(st enumState, alpha []int) []step {
 	var out []step
 	regNames := []int{userBase + st.k}
 	for i := 0; i < st.k; i++ {
-		if st.live&(1<<uint(i)) == 0 {
+		if st.live&(1<<uint(i)) == 0 || enumDup {
 			regNames = append(regNames, userBase+i)
 		}
 	}
@@ -199,8 +204,12 @@ func opsAt(st enumState, alpha []int) []step {
 			fwd++
 		}
 		tg = append(tg, fwd, idStar)
+		dup := n < userBase+st.k && st.live&(1<<uint(n-userBase)) != 0
 		for _, b := range tg {
 			for _, a := range tg {
+				if dup && enumDupSingle && b != none && a != none {
+					continue
+				}
 				out = append(out, step{Op: opRegister, Name: uint8(n), Bef: uint8(b), Aft: uint8(a)})
 			}
 		}
@@ -287,6 +296,7 @@ type block struct {
 	alpha      []int
 	size       int
 	move       bool // the "move a callback" family instead of the plain enumeration
+	multi      bool // the "second entry under an existing name" family
 }
 
 // moveSeq enumerates the family "register u1 and u2, remove one of them, register it
@@ -335,6 +345,114 @@ func moveSeq(p *pipeline, idx int) []step {
 	return []step{s1, s2, s3, s4}
 }
 
+// multiSeq enumerates the family "a name x that exists is given a second entry, then a call is
+// made on x" (sequences of length 3..6, 1 440 per pipeline). x is a user callback (u1, with a
+// neighbour u2 registered after it) or the main built-in of the pipeline (neighbour u1).
+//
+//	x = u1 first registered: plain | Before(main) | After(main) | Before("*") | After("*")
+//	neighbour y            : plain | Before(x) | After(x)
+//	second entry for x     : Register | Before(b).Register | After(b).Register | Before(y).Register |
+//	                         After(y).Register | After("*").Register | Before(b).Replace |
+//	                         After(b).Replace | After(y).Replace | Before("*").Replace
+//	                         (b = main built-in; for x = main built-in: the first built-in, or nothing
+//	                         when the pipeline has one built-in only)
+//	then                   : nothing | Remove(x) | Remove(x), Register(x) | Remove(x), After(y).Register(x) |
+//	                         Replace(x) | Replace(x), Remove(x) | Before(y).Remove(x) |
+//	                         Register(x) (third entry), Remove(x)
+const (
+	multiSecond = 10
+	multiTail   = 8
+	multiUser   = 5 * 3 * multiSecond * multiTail
+	multiBuilt  = 3 * multiSecond * multiTail
+	multiCount  = multiUser + multiBuilt
+)
+
+func multiSeq(p *pipeline, idx int) []step {
+	mainB := p.reduced[len(p.reduced)/2]
+	x, y, b := userBase, userBase+1, mainB
+	var seq []step
+	reg := func(op, name, bef, aft int) {
+		seq = append(seq, step{Op: uint8(op), Name: uint8(name), Bef: uint8(bef), Aft: uint8(aft)})
+	}
+	if idx < multiUser {
+		c1 := idx % 5
+		idx /= 5
+		switch c1 {
+		case 0:
+			reg(opRegister, x, none, none)
+		case 1:
+			reg(opRegister, x, mainB, none)
+		case 2:
+			reg(opRegister, x, none, mainB)
+		case 3:
+			reg(opRegister, x, idStar, none)
+		case 4:
+			reg(opRegister, x, none, idStar)
+		}
+	} else {
+		idx -= multiUser
+		x, y, b = mainB, userBase, none
+		if p.reduced[0] != mainB {
+			b = p.reduced[0]
+		}
+	}
+	c2 := idx % 3
+	idx /= 3
+	switch c2 {
+	case 0:
+		reg(opRegister, y, none, none)
+	case 1:
+		reg(opRegister, y, x, none)
+	case 2:
+		reg(opRegister, y, none, x)
+	}
+	c3 := idx % multiSecond
+	idx /= multiSecond
+	switch c3 {
+	case 0:
+		reg(opRegister, x, none, none)
+	case 1:
+		reg(opRegister, x, b, none)
+	case 2:
+		reg(opRegister, x, none, b)
+	case 3:
+		reg(opRegister, x, y, none)
+	case 4:
+		reg(opRegister, x, none, y)
+	case 5:
+		reg(opRegister, x, none, idStar)
+	case 6:
+		reg(opReplace, x, b, none)
+	case 7:
+		reg(opReplace, x, none, b)
+	case 8:
+		reg(opReplace, x, none, y)
+	case 9:
+		reg(opReplace, x, idStar, none)
+	}
+	switch idx % multiTail {
+	case 1:
+		reg(opRemove, x, none, none)
+	case 2:
+		reg(opRemove, x, none, none)
+		reg(opRegister, x, none, none)
+	case 3:
+		reg(opRemove, x, none, none)
+		reg(opRegister, x, none, y)
+	case 4:
+		reg(opReplace, x, none, none)
+	case 5:
+		reg(opReplace, x, none, none)
+		reg(opRemove, x, none, none)
+	case 6:
+		reg(opRemove, x, y, none)
+	case 7:
+		reg(opRegister, x, none, none)
+		reg(opRemove, x, none, none)
+	}
+	return seq
+}
+
 var blockCache = map[string][]block{}
 
 func blocks(tier string) []block {
@@ -356,6 +474,7 @@ func blocks(tier string) []block {
 			out = append(out, block{pl: pl, length: l, alpha: alpha, size: count(enumState{}, alpha, l)})
 		}
 		out = append(out, block{pl: pl, length: 4, size: moveCount, move: true})
+		out = append(out, block{pl: pl, length: 5, size: multiCount, multi: true})
 	}
 	blockCache[tier] = out
 	return out
@@ -383,6 +502,7 @@ const poolSize = 5
 func randomSeq(r *core.Rand, p *pipeline) []step {
 	n := r.Range(3, 8)
 	live := map[int]bool{}
+	gone := map[int]bool{} // built-ins that a Remove hit (not registered again under that name)
 	introduced := []int{}
 	seq := make([]step, 0, n)
 	target := func(self int) uint8 {
@@ -435,6 +555,42 @@ func randomSeq(r *core.Rand, p *pipeline) []step {
 				continue
 			}
 		}
+		if x >= 76 && x < 88 {
+			// a second entry under a name that exists: Register of that name, or a Replace that
+			// carries requests (gorm keeps both as entries of their own)
+			var cand []int
+			for _, u := range introduced {
+				if live[u] {
+					cand = append(cand, u)
+				}
+			}
+			if len(cand) == 0 || r.Chance(1, 4) {
+				for b := range p.builtins {
+					if !gone[b] {
+						cand = append(cand, b)
+					}
+				}
+			}
+			if len(cand) > 0 {
+				name := core.Pick(r, cand)
+				s := step{Op: opRegister, Name: uint8(name), Bef: none, Aft: none}
+				switch y := r.Intn(100); {
+				case y < 30:
+				case y < 50:
+					s.Bef = target(name)
+				case y < 70:
+					s.Aft = target(name)
+				case y < 75:
+					s.Bef, s.Aft = target(name), target(name)
+				case y < 87:
+					s.Op, s.Bef = opReplace, target(name)
+				default:
+					s.Op, s.Aft = opReplace, target(name)
+				}
+				seq = append(seq, s)
+				continue
+			}
+		}
 		if x < 65 && len(free) > 0 {
 			name := core.Pick(r, free)
 			s := step{Op: opRegister, Name: uint8(name), Bef: none, Aft: none}
@@ -467,8 +623,20 @@ func randomSeq(r *core.Rand, p *pipeline) []step {
 				live[t] = true
 			}
 		} else {
-			seq = append(seq, step{Op: opRemove, Name: uint8(t), Bef: none, Aft: none})
+			s := step{Op: opRemove, Name: uint8(t), Bef: none, Aft: none}
+			if r.Chance(1, 6) {
+				// the requests of a Remove call mean nothing: the callback is removed all the same
+				if r.Bool() {
+					s.Bef = target(t)
+				} else {
+					s.Aft = target(t)
+				}
+			}
+			seq = append(seq, s)
 			delete(live, t)
+			if t < userBase {
+				gone[t] = true
+			}
 		}
 	}
 	return seq
@@ -479,31 +647,75 @@ func randomSeq(r *core.Rand, p *pipeline) []step {
 type nameState struct {
 	live     bool
 	weak     bool // exists only through a Replace of a name that did not exist: unspecified
-	handler  int  // index of the step whose stub must fire (-1 = built-in)
+	handler  int  // index of the step that registered the newest handler (-1 = built-in)
 	bef, aft int  // constraints of the registration that created it
-	replaced bool // a Replace hit it while it existed (position must be kept)
+	replaced bool // a plain Replace hit it while it existed (position must be kept)
+	// multi: the name was given a second entry while it existed (Register of an existing name, or a
+	// Replace carrying Before/After). The statement fixes neither which of the handlers runs nor
+	// where; it still fixes that some handler of the name runs, none of them more than once, that
+	// the handler of a later plain Replace runs (mustLast) and that none runs after a Remove.
+	multi        bool
+	mustLast     bool  // the newest handler is the one that has to fire
+	alts         []int // multi: the older handlers, still acceptable
+	dead         []int // handlers that belonged to the name when a Remove hit it (this and earlier lives)
+	removedMulti bool  // the Remove that ended the current/last life hit a multi name
 }
+
+func has(l []int, v int) bool {
+	for _, x := range l {
+		if x == v {
+			return true
+		}
+	}
+	return false
+}
+
+// unspec: the statement does not say where this callback has to be.
+func (ns *nameState) unspec() bool { return ns.weak || ns.multi }
 
 func model(p *pipeline, seq []step) map[int]*nameState {
 	m := map[int]*nameState{}
 	for i := range p.builtins {
-		m[i] = &nameState{live: true, handler: -1, bef: none, aft: none}
+		m[i] = &nameState{live: true, handler: -1, bef: none, aft: none, mustLast: true}
+	}
+	fresh := func(n int, ns *nameState) {
+		if old := m[n]; old != nil {
+			ns.dead = old.dead
+		}
+		m[n] = ns
 	}
 	for i, s := range seq {
 		n := int(s.Name)
+		plain := s.Bef == none && s.Aft == none
 		switch s.Op {
 		case opRegister:
-			m[n] = &nameState{live: true, handler: i, bef: int(s.Bef), aft: int(s.Aft)}
+			if ns := m[n]; ns != nil && ns.live {
+				// a second entry under a name that exists
+				ns.alts = append(ns.alts, ns.handler)
+				ns.handler, ns.multi, ns.mustLast = i, true, false
+			} else {
+				// (a built-in name that was removed and is registered anew is no built-in any more: unspecified)
+				fresh(n, &nameState{live: true, weak: n < userBase, handler: i, bef: int(s.Bef), aft: int(s.Aft), mustLast: true})
+			}
 		case opReplace:
 			if ns := m[n]; ns != nil && ns.live {
-				ns.handler = i
-				ns.replaced = true
+				if plain {
+					if ns.multi {
+						ns.alts = append(ns.alts, ns.handler)
+					}
+					ns.handler, ns.replaced, ns.mustLast = i, true, true
+				} else {
+					ns.alts = append(ns.alts, ns.handler)
+					ns.handler, ns.multi, ns.mustLast = i, true, false
+				}
 			} else {
-				m[n] = &nameState{live: true, weak: true, handler: i, bef: none, aft: none}
+				fresh(n, &nameState{live: true, weak: true, handler: i, bef: none, aft: none, mustLast: true})
 			}
 		case opRemove:
-			if ns := m[n]; ns != nil {
+			if ns := m[n]; ns != nil && ns.live {
 				ns.live = false
+				ns.removedMulti = ns.multi
+				ns.dead = append(append(ns.dead, ns.handler), ns.alts...)
 			}
 		}
 	}
@@ -673,24 +885,33 @@ func apply(db *gorm.DB, pl int, p *pipeline, i int, s step) error {
 	}
 	name := p.nameOf(int(s.Name))
 	fn := stub(int(s.Name), i)
-	switch s.Op {
-	case opReplace:
-		return pr.Replace(name, fn)
-	case opRemove:
-		return pr.Remove(name)
-	}
+	// the receiver of the call: the pipeline itself, or the object returned by Before / After
+	var r registrar = pr
 	switch {
 	case s.Bef == none && s.Aft == none:
-		return pr.Register(name, fn)
 	case s.Aft == none:
-		return pr.Before(p.nameOf(int(s.Bef))).Register(name, fn)
+		r = pr.Before(p.nameOf(int(s.Bef)))
 	case s.Bef == none:
-		return pr.After(p.nameOf(int(s.Aft))).Register(name, fn)
+		r = pr.After(p.nameOf(int(s.Aft)))
+	case afterFirst(i, s):
+		r = pr.After(p.nameOf(int(s.Aft))).Before(p.nameOf(int(s.Bef)))
+	default:
+		r = pr.Before(p.nameOf(int(s.Bef))).After(p.nameOf(int(s.Aft)))
 	}
-	if afterFirst(i, s) {
-		return pr.After(p.nameOf(int(s.Aft))).Before(p.nameOf(int(s.Bef))).Register(name, fn)
+	switch s.Op {
+	case opReplace:
+		return r.Replace(name, fn)
+	case opRemove:
+		return r.Remove(name)
 	}
-	return pr.Before(p.nameOf(int(s.Bef))).After(p.nameOf(int(s.Aft))).Register(name, fn)
+	return r.Register(name, fn)
+}
+
+// registrar is what the pipeline accessor and the Before/After builders have in common.
+type registrar interface {
+	Register(string, func(*gorm.DB)) error
+	Replace(string, func(*gorm.DB)) error
+	Remove(string) error
 }
 
 // wrapBuiltins (mode B) replaces every built-in by a recording wrapper around it.
@@ -779,7 +1000,7 @@ func runSeq(pl int, seq []step, modeB bool) outcome {
 	}
 	rowIntact := true
 	for _, s := range seq {
-		if s.Op != opRegister && int(s.Name) < userBase {
+		if int(s.Name) < userBase {
 			rowIntact = false
 		}
 	}
@@ -805,7 +1026,7 @@ type problem struct {
 }
 
 type checkStats struct {
-	constraints, star, removedAbsent, builtinPairs, onceChecked, skippedWeak int
+	constraints, star, removedAbsent, builtinPairs, onceChecked, skippedWeak, multiChecked int
 }
 
 // check compares one pipeline execution (events of one Statement.Table) with the model.
@@ -844,18 +1065,32 @@ func check(p *pipeline, m map[int]*nameState, trace []ev, modeA, touched bool, s
 	}
 	pos := map[int][]int{}
 	stale := map[int]bool{}
+	type nh struct{ name, handler int }
+	fired := map[nh]int{}
 	for i, e := range trace {
 		ns := m[e.name]
 		switch {
 		case ns == nil || !ns.live:
-			add("removed-ran", "%s fired (handler of step %d) although it is not registered at the end of the sequence", p.nameOf(e.name), e.handler)
+			if ns != nil && ns.removedMulti {
+				add("removed-ran:multi-entry", "%s fired (handler of step %d) although it is not registered at the end of the sequence: the name had more than one entry when Remove was called, Remove has to take all of them out", p.nameOf(e.name), e.handler)
+			} else {
+				add("removed-ran", "%s fired (handler of step %d) although it is not registered at the end of the sequence", p.nameOf(e.name), e.handler)
+			}
 			continue
-		case ns.handler != e.handler:
+		case ns.handler == e.handler:
+		case ns.multi && has(ns.alts, e.handler):
+			// an older entry of a name that was given several: acceptable
+		case has(ns.dead, e.handler):
+			add("removed-ran:registered-again", "%s fired with the handler of step %d, which was taken out by a later Remove(%s); the name was registered again afterwards (handler of step %d)", p.nameOf(e.name), e.handler, p.nameOf(e.name), ns.handler)
+			stale[e.name] = true
+			continue
+		default:
 			add("stale-handler", "%s fired with the handler of step %d, the handler registered last is that of step %d", p.nameOf(e.name), e.handler, ns.handler)
 			stale[e.name] = true
 			continue
 		}
 		pos[e.name] = append(pos[e.name], i)
+		fired[nh{e.name, e.handler}]++
 	}
 	ids := make([]int, 0, len(m))
 	for id := range m {
@@ -869,6 +1104,27 @@ func check(p *pipeline, m map[int]*nameState, trace []ev, modeA, touched bool, s
 			continue
 		}
 		n := len(pos[id])
+		if ns.multi {
+			// several entries under one name: no handler twice, some handler at all, and the
+			// handler of a later plain Replace in any case
+			rep := false
+			for _, h := range append([]int{ns.handler}, ns.alts...) {
+				if k := fired[nh{id, h}]; k > 1 && !rep {
+					rep = true
+					add("not-once:repeated", "%s fired %d times with the handler of step %d in one pipeline execution", p.nameOf(id), k, h)
+				}
+			}
+			if rep || ns.weak || stale[id] || modeA && id < userBase {
+				continue
+			}
+			st.multiChecked++
+			if n == 0 {
+				add("not-once:missing:multi-entry", "%s is registered (more than once) and not removed but none of its handlers fired", p.nameOf(id))
+			} else if ns.mustLast && fired[nh{id, ns.handler}] == 0 {
+				add("stale-handler:multi-entry", "%s was Replace'd last by step %d but only older handlers of the name fired", p.nameOf(id), ns.handler)
+			}
+			continue
+		}
 		if n > 1 {
 			add("not-once:repeated", "%s fired %d times in one pipeline execution", p.nameOf(id), n)
 			continue
@@ -948,7 +1204,7 @@ func requirements(p *pipeline, m map[int]*nameState, withWeak bool) (out []req, 
 	sort.Ints(ids)
 	lastID := -1
 	for id := range p.builtins {
-		if ns := m[id]; !ns.live || ns.weak {
+		if ns := m[id]; !ns.live || ns.unspec() {
 			continue
 		}
 		if lastID >= 0 {
@@ -958,7 +1214,7 @@ func requirements(p *pipeline, m map[int]*nameState, withWeak bool) (out []req, 
 	}
 	for _, id := range ids {
 		ns := m[id]
-		if !ns.live || ns.weak || id < userBase {
+		if !ns.live || ns.unspec() || id < userBase {
 			continue
 		}
 		for side, t := range []int{ns.bef, ns.aft} {
@@ -981,7 +1237,7 @@ func requirements(p *pipeline, m map[int]*nameState, withWeak bool) (out []req, 
 				// without any constraint
 				for _, y := range ids {
 					ys := m[y]
-					if y == id || !ys.live || ys.weak {
+					if y == id || !ys.live || ys.unspec() {
 						continue
 					}
 					if y >= userBase && (ys.bef != none || ys.aft != none) {
@@ -995,7 +1251,7 @@ func requirements(p *pipeline, m map[int]*nameState, withWeak bool) (out []req, 
 			if ts == nil || !ts.live {
 				continue
 			}
-			if ts.weak && !withWeak {
+			if ts.unspec() && !withWeak {
 				skipped++
 				continue
 			}
@@ -1092,6 +1348,13 @@ func risky(p *pipeline, seq []step) bool {
 				return true
 			}
 		}
+		// a second entry with requests of its own under a name that exists: the sorter then works
+		// with two sets of requests for one name
+		if s := seq[n-1]; s.Op != opRemove && (s.Bef != none || s.Aft != none) {
+			if prev := model(p, seq[:n-1])[int(s.Name)]; prev != nil && prev.live {
+				return true
+			}
+		}
 		var reqs []req
 		for id, ns := range m {
 			if id < userBase || id >= idNX || !ns.live || ns.weak {
@@ -1170,6 +1433,9 @@ func caseSeq(c *core.Ctx) (pl int, seq []step, origin string) {
 			if b.move {
 				return b.pl, moveSeq(&pipelines[b.pl], idx), "exhaustive move-family"
 			}
+			if b.multi {
+				return b.pl, multiSeq(&pipelines[b.pl], idx), "exhaustive second-entry-family"
+			}
 			return b.pl, decode(b.alpha, b.length, idx), fmt.Sprintf("exhaustive length %d", b.length)
 		}
 		idx -= b.size
@@ -1186,13 +1452,13 @@ func run(c *core.Ctx) {
 	touched, usesStar := false, false
 	constrained, cSteps := 0, 0 // Before / After requests in the whole sequence, and calls carrying any
 	for _, s := range seq {
-		if s.Op != opRegister && int(s.Name) < userBase {
-			touched = true
+		if int(s.Name) < userBase {
+			touched = true // Replace / Remove / a second Register under a built-in name
 		}
 		if s.Bef == idStar || s.Aft == idStar {
 			usesStar = true
 		}
-		if s.Op == opRegister {
+		if s.Op != opRemove { // (the requests of a Remove call leave with it)
 			if int(s.Bef) != none {
 				constrained++
 			}
@@ -1307,7 +1573,7 @@ func run(c *core.Ctx) {
 		// Replace keeps the position: differential run without the Replace steps
 		var repl []int
 		for id, ns := range m {
-			if ns.live && !ns.weak && ns.replaced {
+			if ns.live && !ns.unspec() && ns.replaced {
 				repl = append(repl, id)
 			}
 		}
@@ -1316,7 +1582,7 @@ func run(c *core.Ctx) {
 			var seq2 []step
 			m2 := model(p, nil)
 			for _, s := range seq {
-				if s.Op == opReplace {
+				if s.Op == opReplace && s.Bef == none && s.Aft == none {
 					if ns := m2[int(s.Name)]; ns != nil && ns.live {
 						continue
 					}
@@ -1348,8 +1614,8 @@ func run(c *core.Ctx) {
 					c.Inc("replace_position_checked")
 					for y, ya := range pa {
 						yb, ok := pb[y]
-						if !ok || y == x {
-							continue
+						if !ok || y == x || m[y] == nil || m[y].multi {
+							continue // (where a name with several entries goes is not specified)
 						}
 						if (xa < ya) != (xb < yb) {
 							rp = append(rp, problem{"replace-position", fmt.Sprintf("after Replace, %s fires on the other side of %s than the callback it replaced", p.nameOf(x), p.nameOf(y))})
